@@ -4,7 +4,7 @@ Proof: props/C05.v.  Correspondence + oracle: (i) closure of the header-level li
 import random
 from . import core, session, ring
 
-def closure_part(chk, keys, quick_plan=((4, 100000, 240), (5, 2500, 60)), thorough_plan=((4, 10**7, 3000), (5, 10**7, 6000), (6, 10**7, 12000))):
+def closure_part(chk, keys, quick_plan=((4, 100000, 240), (5, 2500, 60)), thorough_plan=((4, 10**7, 1500), (5, 10**7, 900), (6, 10**7, 900))):
     plan = quick_plan if chk.quick() else thorough_plan
     res = []
     for ns, cap, budget in plan:
@@ -24,7 +24,7 @@ def run(chk):
     chk.prove()
     closure_part(chk, ("c05",))
     rnd = random.Random(chk.seed)
-    scns = [session.build_delivery(rnd, small=True) for _ in range(150 if chk.quick() else 5000)]
+    scns = [session.build_delivery(rnd, small=True) for _ in range(150 if chk.quick() else 2000)]
     lines, impl, outs = session.run(chk, scns, stream="session-history")
     nt = []
     for s, l, raw, out in zip(scns, lines, impl, outs):
